@@ -44,10 +44,15 @@ def gen_scenario(rng, faulty=False, fine_pct=35, nreq_max=2):
             if o in ("release_abort", "abort_release", "release_release", "echo_abort"):
                 d["gap"] = rng.choice([0.0, 0.0, 0.0002, 0.001])
             ops.append(d)
+        final = rng.choice(["release", "release", "abort", "leave"])
+        if final == "leave" and any(o["op"] == "find" for o in ops):
+            # a response iterator may be abandoned half-way (which keeps the reactor paused):
+            # such a script must end the association itself
+            final = "release"
         sc["req"].append({
             "acse": rng.choice([t, 2 * t]), "dimse": rng.choice([t, 2 * t]), "network": rng.choice([t, 3 * t]),
             "max_pdu": rng.choice([0, 128, 16382]), "start_delay": rng.choice([0.0, 0.0, 0.001, 0.01]),
-            "ops": ops, "final": rng.choice(["release", "release", "abort", "leave"]),
+            "ops": ops, "final": final,
             "timeout_response": rng.choice(["A-ABORT", "A-ABORT", "A-RELEASE"]),
         })
     sc["acc_ops"] = []
@@ -122,6 +127,18 @@ def execute(sc, ctx):
     acc = sc["acc"]
     for f in sc.get("faults", []):
         ctx.net.cfg["faults"].append(dict(f))
+    if sc.get("raise"):
+        import hashlib
+
+        rz = sc["raise"]
+
+        def plan(lab, name, c):
+            if name in rz.get("never", ()):
+                return False
+            h = hashlib.sha256(("%s/%s/%s/%d" % (rz["seed"], lab, name, c)).encode()).digest()[0]
+            return h * 100 // 256 < rz["pct"]
+
+        ctx.raise_plan = plan
 
     def on_echo(event):
         sim.record("handler", op="echo", assoc=ctx.label(event.assoc))
@@ -435,8 +452,10 @@ def check_provider_idle(pid, r):
     return out
 
 
-def check_history(pid, r, strict_pdus=True):
-    """C27: well-formedness of the notification history per association."""
+def check_history(pid, r, strict_pdus=True, judge_recv=True):
+    """C27: well-formedness of the notification history per association.
+    judge_recv=False when the peer deliberately wrote bytes that are not PDUs
+    (then "the PDUs that crossed the wire" is not defined for that direction)."""
     out = []
     conns = assoc_conn(r)
     for lab in sorted(r.final):
@@ -469,7 +488,10 @@ def check_history(pid, r, strict_pdus=True):
             if len(closes) > 1:
                 out.append(C.v("conn-order", "%s/close-count/%s/%d" % (pid, role, len(closes)), "%s: EVT_CONN_CLOSE fired %d times" % (lab, len(closes))))
             if len(closes) == 0 and not r.failure:
-                out.append(C.v("conn-order", "%s/close-count/%s/0" % (pid, role), "%s: connection opened but EVT_CONN_CLOSE never fired" % lab))
+                cause = "other"
+                if lab.startswith("acc") and not r.evts(lab, "EVT_REQUESTED"):
+                    cause = "request-not-received-within-acse-timeout"
+                out.append(C.v("conn-order", "%s/close-count/%s/0/%s" % (pid, role, cause), "%s: connection opened but EVT_CONN_CLOSE never fired" % lab))
             if closes:
                 late = [n for n in names[closes[0] + 1:] if n in ("EVT_DATA_SENT", "EVT_DATA_RECV", "EVT_PDU_SENT", "EVT_PDU_RECV", "EVT_CONN_OPEN")]
                 if late:
@@ -502,7 +524,10 @@ def check_history(pid, r, strict_pdus=True):
                     kind = "extra-notification" if len(evt_bytes) > len(wire_bytes) else ("missing-notification" if len(evt_bytes) < len(wire_bytes) else "different")
                     out.append(C.v("pdu-sent", "%s/pdu-sent-mismatch/%s/%s" % (pid, role, kind), "%s: EVT_PDU_SENT list (%d) != PDUs written on the wire (%d), first difference at %d" % (lab, len(evt_bytes), len(wire_bytes), k)))
             # received: every EVT_PDU_RECV must be a PDU the peer wrote, in order (prefix)
-            peer_wire, _ = C.conn_pdus(r, cid, theirs)
+            peer_wire, peer_rest = C.conn_pdus(r, cid, theirs)
+            if not judge_recv or any(not (1 <= p["type"] <= 7) for p in peer_wire):
+                # the peer wrote bytes that do not frame as PDUs: "the PDUs on the wire" is not defined for them
+                continue
             peer_bytes = [W.pdu(p["type"], p["payload"]) for p in peer_wire]
             recv_evt = [h.get("bytes") for h in ev if h["evt"] == "EVT_PDU_RECV"]
             raw_recv = [h.get("data") for h in ev if h["evt"] == "EVT_DATA_RECV"]
@@ -570,12 +595,25 @@ def check_fsm_lockstep(pid, r):
                 eff = eff["alt"]
             want = [eff["pdu"]] if eff["pdu"] else []
             got = [_PDU_CLS.get(x["pdu"]) for x in sent_since]
-            if got != want and not (want and not got and fault_fired(r)):
+            # a PDU whose write failed because the transport connection was already gone is not "sent":
+            # the failed write makes the transport report Evt17, which must then be the next thing the provider sees
+            send_failed = bool(want and not got) and any(
+                x["evt"] == "EVT_FSM_TRANSITION" and x["seq"] > h["seq"] and x["fsm_event"] == "Evt17" for x in ev)
+            if got != want and not (want and not got and fault_fired(r)) and not send_failed:
                 out.append(C.v("fsm-effect", "%s/wrong-pdu-sent/%s/%s" % (pid, act, "-".join(map(str, got)) or "none"), "%s: action %s in %s sent PDUs %s, PS3.8 says %s" % (lab, act, sig_cell, got, want)))
             if eff.get("abort_source") is not None and got == want:
                 b = sent_since[0].get("bytes")
-                if b is not None and len(b) >= 10 and b[8] != eff["abort_source"]:
-                    out.append(C.v("fsm-effect", "%s/wrong-abort-source/%s/%d" % (pid, act, b[8]), "%s: %s sent A-ABORT with source %d, PS3.8 says %d" % (lab, act, b[8], eff["abort_source"])))
+                want_src = eff["abort_source"]
+                if act == "AA-1" and h["fsm_event"] == "Evt15":
+                    # the A-ABORT request primitive names its source: 0 for the service user (Association.abort()),
+                    # 2 when pynetdicom's own ACSE/DIMSE layer aborts (A-P-ABORT or A-ABORT with provider source)
+                    # primitives are consumed in FIFO order, one per Evt15 transition
+                    prims = [x for x in ev if x["evt"] == "EVT_ACSE_SENT" and x.get("prim") in ("A_ABORT", "A_P_ABORT") and x["seq"] <= h["seq"]]
+                    k = len([x for x in ev if x["evt"] == "EVT_FSM_TRANSITION" and x["fsm_event"] == "Evt15" and x["seq"] < h["seq"]])
+                    if k < len(prims) and prims[k].get("abort_source") in (0, 2):
+                        want_src = prims[k]["abort_source"]
+                if b is not None and len(b) >= 10 and b[8] != want_src:
+                    out.append(C.v("fsm-effect", "%s/wrong-abort-source/%s/%d" % (pid, act, b[8]), "%s: %s sent A-ABORT with source %d, expected %d" % (lab, act, b[8], want_src)))
             sent_since = []
     return out
 
